@@ -56,3 +56,4 @@
 (declare-fun feat_ifon (Iface) Bool)                     ; CheckIfFeature(if-feature statement): the feature it names is valid
 (declare-fun mach_expr (Int) String)                 ; the expression text an xpath.Machine was compiled from
 (declare-fun node_argdate (Iface) String)       ; ArgDate()
+(declare-fun fc_status (Iface String) Int) ; FeaturesChecker.Status(feature): what one feature checker says about a feature (DISABLED 0, ENABLED 1, NOTPRESENT 2)
